@@ -166,12 +166,13 @@ pub struct GenOpts {
     pub unicode: bool,
     pub hex: bool,
     pub deprecated: bool,   // allow items whose upper version is below `version`
+    pub param_comments: bool, // comments in front of parameters (they are dropped on write: not for layout / content checks)
     pub specials: bool,     // generate A2ML blocks (grammar-based definitions) and IF_DATA blocks (conforming / unknown content)
 }
 
 impl Default for GenOpts {
     fn default() -> Self {
-        GenOpts { version: 6, max_repeat: 2, opt_prob: 30, comments: true, unicode: true, hex: true, deprecated: false, specials: false }
+        GenOpts { version: 6, max_repeat: 2, opt_prob: 30, comments: true, unicode: true, hex: true, deprecated: false, param_comments: false, specials: false }
     }
 }
 
@@ -206,6 +207,12 @@ impl<'a> DocGen<'a> {
 
     pub fn ident(&mut self) -> String {
         self.counter += 1;
+        if self.opts.unicode && self.rng.chance(1, 400) {
+            // identifiers at the length limit (1024 bytes are allowed, 1025 are not)
+            let len = [1023usize, 1024][self.rng.below(2)];
+            let head = format!("Long{}_", self.counter);
+            return format!("{head}{}", "x".repeat(len - head.len()));
+        }
         let base = ["abc", "X_y", "Ab1", "sig.x[3]", "n", "_u", "Meas.Grp.Val", "a[0][1]"][self.rng.below(8)];
         format!("{base}{}", self.counter)
     }
@@ -315,6 +322,9 @@ impl<'a> DocGen<'a> {
         let fl = self.g.fields.get(ty).cloned().unwrap_or_default();
         for (k, it) in items.iter().enumerate() {
             self.cur_site = format!("{ty}.{}", fl.get(k).cloned().unwrap_or_default());
+            if self.opts.param_comments && self.rng.chance(1, 25) {
+                self.push(format!("/* p{} */", self.counter), Role::Comment, depth + 1);
+            }
             if k == 0 && pos == 1 && self.ascending_positions {
                 self.pos_counter += 1 + self.rng.below(3) as u32;
                 let v = self.pos_counter.to_string();
@@ -446,6 +456,9 @@ pub enum Layout {
     Wild,
     /// everything on as few lines as possible
     Dense,
+    /// arbitrary line breaks between tokens, but /begin and /end stay on the line of their tag and a block-level
+    /// comment starts its own line (the precondition of the layout property C05)
+    Loose,
 }
 
 pub fn render(toks: &[GTok], rng: &mut Rng, layout: Layout, crlf: bool) -> String {
@@ -458,12 +471,17 @@ pub fn render(toks: &[GTok], rng: &mut Rng, layout: Layout, crlf: bool) -> Strin
         let mut brk = match layout {
             Layout::Dense => false,
             Layout::Wild => rng.chance(1, 4),
+            Layout::Loose => t.role == Role::Comment || rng.chance(1, 4),
             Layout::Canonical => match t.role {
                 Role::Begin | Role::End | Role::Comment => true,
                 Role::Tag => !matches!(prev.map(|p| &p.role), Some(Role::Begin) | Some(Role::End)),
                 Role::Param => rng.chance(1, 15),
             },
         };
+        if layout == Layout::Loose && t.role == Role::Param && t.text.starts_with('\n') {
+            // the raw A2ML text brings its own line breaks
+            brk = false;
+        }
         if matches!(prev.map(|p| &p.role), Some(Role::Begin) | Some(Role::End)) && layout != Layout::Wild {
             brk = false;
         }
@@ -480,7 +498,7 @@ pub fn render(toks: &[GTok], rng: &mut Rng, layout: Layout, crlf: bool) -> Strin
             for _ in 0..n {
                 s.push_str(nl);
             }
-            let ind = if layout == Layout::Wild { rng.below(6) } else { t.depth * 2 };
+            let ind = if layout == Layout::Wild || layout == Layout::Loose { rng.below(6) } else { t.depth * 2 };
             for _ in 0..ind {
                 s.push(' ');
             }
